@@ -100,6 +100,23 @@ def lpg_part(rep, wd, tier, seed):
     if r.violation != "NoDeadlock":
         raise V.ToolError("vacuity: switch IndexHeldAcrossCount does not deadlock in LpgLocks")
     mcs.append({"config": "witness LpgLocks AsIs={IndexHeldAcrossCount}", "violates": "NoDeadlock", "distinct": r.distinct})
+    # ---- name registry behind create_edge (EdgeTypes.tla): read-locked fast path, write-locked slow path with a double check
+    emod = os.path.join(D, "MC_EdgeTypes.tla")
+    for asis, want in (("{}", None), ('{"NoDoubleCheck"}', "TypeMirror")):
+        cfgp = os.path.join(wd, "mc-edgetypes.cfg")
+        V.write_cfg(cfgp, constants={"Threads": '{"t1", "t2", "t3"}', "Names": '{"T", "U"}', "AsIs": asis}, invariants=["TypeMirror", "NameOk", "Injective"], check_deadlock=False)
+        _inject(cfgp, "  Want <- MCWant\n")
+        r = V.tlc(emod, cfgp, name="C20edgetypes", workers=2, timeout=300)
+        states += r.distinct
+        trans += r.generated
+        if want is None:
+            mcs.append({"config": "EdgeTypes: 3 threads registering 2 type names, every interleaving of the fast / slow / store sections", **r.summary()})
+            if not r.ok:
+                rep.violation(f"TLC: {r.violation} violated in EdgeTypes.tla", {"tlc": V.tlc_trace_text(r)[-5000:]}, tag="types")
+        else:
+            if r.violation != want:
+                raise V.ToolError(f"vacuity: switch NoDoubleCheck does not violate {want} in EdgeTypes.tla")
+            mcs.append({"config": "witness EdgeTypes AsIs={NoDoubleCheck}", "violates": want, "distinct": r.distinct})
     # ---- 2. real threads: controlled schedules (all of them for the two-thread programs) + free-running rounds
     tp = os.path.join(wd, "lpg.ndjson")
     nrand, nenum = (20, 400) if tier == "quick" else (200, 20000)
